@@ -33,7 +33,7 @@ def generate(tier, seed):
         n = rnd.choice([5, 15, 40])
         steps = list(obs)
         for _ in range(n):
-            steps += [rnd.choice(al + toggles + toggles)] + obs
+            steps += [(rand_rf(rnd, False) if rnd.random() < 0.12 else rnd.choice(al + toggles + toggles))] + obs
         ad = adapter_M(initial_lines(rnd, False, True))
         if rnd.random() < 0.4:
             ad = adapter_X(ad, "p" + "".join(rnd.choice("pppprf") for _ in range(2 * n)))
